@@ -121,6 +121,13 @@ EventOK(e) ==
       [] e.ev = "fact" -> Eq(N(e.r), Mul(Small(e.n), N(e.prev)))           \* n! = n * (n-1)!
       [] e.ev = "binom" -> \* C(n,k) * k = C(n,k-1) * (n-k+1)
             Eq(Mul(N(e.r), Small(e.k)), Mul(N(e.prev), Small(e.n - e.k + 1)))
+      \* integer roots: floor_root(a, b) = r  iff  r^b <= a < (r+1)^b;  ceil_root(a, b) = r  iff  (r-1)^b < a <= r^b  (a > 0)
+      [] e.ev = "froot" -> Cmp(PowN(N(e.r), e.b), N(e.a)) <= 0 /\ Cmp(N(e.a), PowN(Add(N(e.r), Small(1)), e.b)) < 0
+      [] e.ev = "croot" -> Cmp(PowN(Sub(N(e.r), Small(1)), e.b), N(e.a)) < 0 /\ Cmp(N(e.a), PowN(N(e.r), e.b)) <= 0
+      \* multinomial through binomials: (a+b+c)! / (a! b! c!) = C(a+b+c, a) * C(b+c, b)
+      [] e.ev = "multinom" -> Eq(N(e.r), Mul(N(e.c1), N(e.c2)))
+      \* factorial with a step: n!(s) = n * (n-s)!(s)
+      [] e.ev = "factstep" -> Eq(N(e.r), Mul(Small(e.n), N(e.prev)))
       [] e.ev = "digits" -> Eq(Abs(N(e.a)), Horner(e.ds, e.base, 1)) /\ \A i \in 1..Len(e.ds) : e.ds[i] >= 0 /\ e.ds[i] < e.base
       [] e.ev = "text" -> Eq(N(e.a), N(e.parsed))                           \* to_str / to_int / format round trip
       [] e.ev = "repr" -> (e.short = FitsShort(N(e.a)))                      \* canonical Short/Long form
